@@ -457,11 +457,11 @@ func R5(pkgs ...string) func(p *core.Prog) *core.Result {
 						return ival{}, false
 					}
 					n := namedOf(fa.X.Type())
-					if n == nil || n.Obj().Name() != "lengthStack" {
+					if n == nil || core.TypeName(n) != "lengthStack" {
 						return ival{}, false
 					}
 					st := n.Underlying().(*types.Struct)
-					if st.Field(fa.Field).Name() != "current" {
+					if core.FieldName(st, fa.Field) != "current" {
 						return ival{}, false
 					}
 					lo := big.NewInt(-1)
@@ -1063,7 +1063,7 @@ func isLengthPush(c *ssa.Call) bool {
 	}
 	if core.FuncName(sc) == "push" && sc.Signature.Recv() != nil {
 		n := namedOf(sc.Signature.Recv().Type())
-		return n != nil && n.Obj().Name() == "lengthStack"
+		return n != nil && core.TypeName(n) == "lengthStack"
 	}
 	return core.FuncName(sc) == "pushLen"
 }
